@@ -11,6 +11,7 @@ import (
 	"bytes"
 	"fmt"
 	"math/rand"
+	"os"
 	"reflect"
 	"runtime"
 	"runtime/debug"
@@ -49,15 +50,15 @@ func (a *acc) nontrivial(k string) {
 	a.keys = append(a.keys, fmt.Sprintf("%s/%d/%s", a.sec, a.idx, k))
 }
 func (a *acc) viol(key, desc string) {
-	a.c.Violation(key, fmt.Sprintf("%s (section %s case %d)", desc, a.sec, a.idx), rcase{a.sec, a.idx, desc})
+	out.Violation(key, fmt.Sprintf("%s (section %s case %d)", desc, a.sec, a.idx), rcase{a.sec, a.idx, desc})
 }
 func (a *acc) flush() {
 	for k, n := range a.cnt {
-		a.c.Count(k, n)
+		out.Count(k, n)
 	}
-	a.c.Eval(a.ev)
+	out.Eval(a.ev)
 	for _, k := range a.keys {
-		a.c.Nontrivial(k)
+		out.Nontrivial(k)
 	}
 }
 
@@ -65,7 +66,7 @@ var unsupportedOnce sync.Map
 
 func unsupported(c *vf.Ctx, where, class string) {
 	if _, dup := unsupportedOnce.LoadOrStore(where+class, true); !dup {
-		c.Inconclusive(fmt.Sprintf("no mutator for field %s (%s): extend the driver", where, class))
+		out.Inconclusive(fmt.Sprintf("no mutator for field %s (%s): extend the driver", where, class))
 	}
 }
 
@@ -97,7 +98,7 @@ func parallel(n int, f func(i int)) {
 func guard(c *vf.Ctx, sec string, i int, f func()) {
 	defer func() {
 		if e := recover(); e != nil {
-			c.Inconclusive(fmt.Sprintf("panic in section %s case %d: %v\n%s", sec, i, e, firstLines(string(debug.Stack()), 14)))
+			out.Inconclusive(fmt.Sprintf("panic in section %s case %d: %v\n%s", sec, i, e, firstLines(string(debug.Stack()), 14)))
 		}
 	}()
 	f()
@@ -148,7 +149,7 @@ func caseBlock(c *vf.Ctx, i, K int) {
 	h := genHeader(r)
 	priv, other := genP2PKey(r), genP2PKey(r)
 	if err := (&types.Block{Header: h}).Sign(priv); err != nil {
-		c.Inconclusive("Block.Sign failed: " + err.Error())
+		out.Inconclusive("Block.Sign failed: " + err.Error())
 		return
 	}
 	otherPub, _ := crypto.MarshalPublicKey(other.GetPublic())
@@ -216,7 +217,7 @@ func caseBlock(c *vf.Ctx, i, K int) {
 		}
 	}
 	if i < 2 {
-		c.Sample(map[string]interface{}{"kind": "block", "id": vf.Hex(id0), "blockNo": h.BlockNo, "fields": len(hdrTargets)})
+		out.Sample(map[string]interface{}{"kind": "block", "id": vf.Hex(id0), "blockNo": h.BlockNo, "fields": len(hdrTargets)})
 	}
 }
 
@@ -321,7 +322,7 @@ func caseTx(c *vf.Ctx, i, K int) {
 		}
 	}
 	if i < 2 {
-		c.Sample(map[string]interface{}{"kind": "tx", "id": vf.Hex(id0), "type": int32(body.Type), "fields": len(bodyTargets)})
+		out.Sample(map[string]interface{}{"kind": "tx", "id": vf.Hex(id0), "type": int32(body.Type), "fields": len(bodyTargets)})
 	}
 }
 
@@ -459,6 +460,10 @@ func caseTxRoot(c *vf.Ctx, i, K int) {
 
 func main() {
 	c := vf.Start("C19", "exploration")
+	out = c
+	if spec := os.Getenv(childEnv); spec != "" {
+		childMain(c, spec) // never returns
+	}
 
 	fs := hfFields()
 	c.Set("fields_enumerated", map[string][]string{
@@ -487,7 +492,7 @@ func main() {
 		{"tx", c.Pick(1500, 18000), func(i int) { caseTx(c, i, K) }},
 		{"txroot", c.Pick(1200, 12000), func(i int) { caseTxRoot(c, i, K) }},
 		{"rcptroot", c.Pick(2400, 30000), func(i int) { caseRcptRoot(c, i, K) }},
-		{"rcptrt", c.Pick(6000, 90000), func(i int) { caseRcptRT(c, i) }},
+		{"rcptrt", c.Pick(6000, 90000), nil}, // runs in address-space-limited child processes (sink.go)
 		{"chainid", c.Pick(20000, 300000), func(i int) { caseChainID(c, i) }},
 		{"genesis", c.Pick(3000, 40000), func(i int) { caseGenesis(c, i) }},
 	}
@@ -495,21 +500,25 @@ func main() {
 	if c.ReplayPath != "" {
 		var rc rcase
 		if err := c.LoadReplay(&rc); err != nil {
-			c.Inconclusive("cannot load replay: " + err.Error())
+			out.Inconclusive("cannot load replay: " + err.Error())
 		} else {
 			done := false
 			for _, s := range secs {
-				if s.name == rc.Section {
+				if s.name == rc.Section && s.f != nil {
 					guard(c, s.name, rc.Case, func() { s.f(rc.Case) })
 					done = true
 				}
 			}
-			if rc.Section == "hardfork" || rc.Section == "rcptdb" {
+			if rc.Section == "rcptrt" {
+				runIsolated(c, 0, rc.Case)
+				done = true
+			}
+			if rc.Section == "hardfork" {
 				runHardfork(c)
 				done = true
 			}
 			if !done {
-				c.Inconclusive("unknown replay section " + rc.Section)
+				out.Inconclusive("unknown replay section " + rc.Section)
 			}
 		}
 		c.Finish("replay of one case", 0)
@@ -517,9 +526,12 @@ func main() {
 
 	for _, s := range secs {
 		s := s
+		if s.f == nil {
+			runIsolated(c, s.n, -1)
+			continue
+		}
 		parallel(s.n, func(i int) { guard(c, s.name, i, func() { s.f(i) }) })
 	}
-	guard(c, "rcptdb", 0, func() { runReceiptsDB(c) })
 	guard(c, "hardfork", 0, func() { runHardfork(c) })
 
 	dupMu.Lock()
